@@ -48,6 +48,18 @@ fn family(code: &str) -> &'static str {
     }
 }
 
+fn writer_builder(code: &str) -> variant::io::writer::Builder {
+    let (f, k) = builder_cfg(code);
+    let mut b = variant::io::writer::Builder::default();
+    if let Some(f) = f {
+        b = b.set_format(f);
+    }
+    if let Some(k) = k {
+        b = b.set_compression_method(k);
+    }
+    b
+}
+
 /// the reader a user would pick for this format and compression, from the format's own crate
 fn read_specific(code: &str, bytes: &[u8]) -> io::Result<Vec<Vec<u8>>> {
     let mut lines = Vec::new();
@@ -210,17 +222,9 @@ pub fn parse_spec(text: &[u8]) -> io::Result<(vcf::Header, Vec<vcf::variant::Rec
 }
 
 pub fn write_generic(code: &str, header: &vcf::Header, recs: &[&dyn vcf::variant::Record]) -> io::Result<Vec<u8>> {
-    let (f, k) = builder_cfg(code);
     let sink = FaultySink::new(vec![]);
     {
-        let mut b = variant::io::writer::Builder::default();
-        if let Some(f) = f {
-            b = b.set_format(f);
-        }
-        if let Some(k) = k {
-            b = b.set_compression_method(k);
-        }
-        let mut w = b.build_from_writer(sink.clone());
+        let mut w = writer_builder(code).build_from_writer(sink.clone());
         w.write_header(header)?;
         for r in recs {
             w.write_record(header, *r)?;
@@ -315,7 +319,13 @@ fn check_stream(p: &Prepared, code: &str, bytes: &[u8], rdr: &str) -> V {
     // still run (against what was actually written) and the mismatch is reported last
     let swapped: V = if is_gz(bytes) != k.is_some() {
         // cause re-derived from the input: BCF requested, and the stream's compression is the opposite
-        let tag = if f == Format::Bcf { "write-bcf-compression-swapped".to_string() } else { format!("write-{code}-compression-not-as-requested") };
+        let tag = if DEFAULTS.contains(&code) {
+            format!("write-{code}-default-compression-not-as-documented")
+        } else if f == Format::Bcf {
+            "write-bcf-compression-swapped".to_string()
+        } else {
+            format!("write-{code}-compression-not-as-requested")
+        };
         bad(tag, format!("requested {code}, stream starts {}", nv::hex(&bytes[..bytes.len().min(5)])))
     } else {
         Ok(())
@@ -359,6 +369,19 @@ fn check_stream(p: &Prepared, code: &str, bytes: &[u8], rdr: &str) -> V {
         let col = expect.iter().zip(&rb.lines).find(|(a, b)| a != b).map(|(a, b)| diff_column(a, b)).unwrap_or(99);
         return bad(format!("roundtrip-{code}-loses-{}", col_name(col)), d);
     }
+    // the stream is also a file of that format for the format's own reader (conventional framing)
+    if swapped.is_ok() {
+        let b2 = bytes.to_vec();
+        let code2 = code.to_string();
+        match g(&format!("specific-read-{code}"), move || read_specific(&code2, &b2))? {
+            Ok(lines) => {
+                if let Some(d) = first_diff(expect, &lines) {
+                    return bad(format!("write-{code}-differs-for-format-reader"), d);
+                }
+            }
+            Err(e) => return bad(format!("write-{code}-unreadable-by-format-reader"), format!("{} {e}", nv::errkind(&e))),
+        }
+    }
     let hw = canon_header(&p.header).unwrap_or_default();
     let hr = canon_header(&rb.header).unwrap_or_default();
     if hw != hr {
@@ -396,10 +419,9 @@ fn check_convert(p: &Prepared, src: &str, dst: &str) -> V {
                 .build_from_reader(io::Cursor::new(bytes))
                 .map_err(|e| ("build".to_string(), e))?;
             let header = r.read_header().map_err(|e| ("read_header".to_string(), e))?;
-            let (f, k) = fmt_of(dst);
             let sink = FaultySink::new(vec![]);
             {
-                let mut w = variant::io::writer::Builder::default().set_format(f).set_compression_method(k).build_from_writer(sink.clone());
+                let mut w = writer_builder(dst).build_from_writer(sink.clone());
                 w.write_header(&header).map_err(|e| ("write_header".to_string(), e))?;
                 let mut rec = variant::Record::Vcf(vcf::Record::default());
                 let mut i = 0;
@@ -469,11 +491,19 @@ fn check_async(p: &Prepared, code: &str) -> V {
     }
     // async writer
     let (f, k) = fmt_of(code);
+    let (bf, bk) = builder_cfg(code);
     let out = g(&format!("async-write-{code}"), {
         std::panic::AssertUnwindSafe(|| {
             crate::common::block_on(async {
                 let sink = crate::common::AsyncSink::default();
-                let mut w = variant::r#async::io::writer::Builder::default().set_format(f).set_compression_method(k).build_from_writer(sink.clone());
+                let mut b = variant::r#async::io::writer::Builder::default();
+                if let Some(f) = bf {
+                    b = b.set_format(f);
+                }
+                if let Some(k) = bk {
+                    b = b.set_compression_method(k);
+                }
+                let mut w = b.build_from_writer(sink.clone());
                 w.write_header(&p.header).await?;
                 for r in &recs {
                     w.write_record(&p.header, *r).await?;
